@@ -156,7 +156,7 @@ func (r *evmcRun) project(ctx sdk.Context) M {
 			storage[fr] = st
 		}
 		holder := common.BytesToAddress(r.addrs[fr])
-		if k := r.kinds[id]; k == "call" || k == "pc" || k == "recall" {
+		if k := r.kinds[id]; k == "call" || k == "pc" || k == "recall" || k == "create" {
 			holder = r.w.recorderAddr() // success flags live in the recorder contract
 		}
 		v := app.EvmKeeper.GetState(ctx, holder, common.BigToHash(big.NewInt(int64(id))))
@@ -291,6 +291,8 @@ func evmcOne(tw *TraceWriter, scn int, src string, sc evmcScenario) {
 		r.frames[sc.Top.ID] = "S"
 		opFrames(fmt.Sprintf("C%d", sc.Top.ID), sc.Top.Body, r.frames)
 		opFrames(fmt.Sprintf("C%d", sc.Top.ID), sc.Top.Alt, r.frames)
+		ew.PrepareNAddrs(ew.contractAddr(sc.Top.ID), sc.Top.Body)
+		ew.PrepareNAddrs(ew.contractAddr(sc.Top.ID), sc.Top.Alt)
 	case sc.Top.Op == "create":
 		r.frames[sc.Top.ID] = "S"
 		opFrames("N0", sc.Top.Body, r.frames)
@@ -482,6 +484,19 @@ func evmcOne(tw *TraceWriter, scn int, src string, sc evmcScenario) {
 	}
 	if err := ew.InstallCode(ctx, ew.recorderAddr(), recorderCode, nil); err != nil {
 		panic(err)
+	}
+	// the addresses at which nested CREATEs will create contracts are funded beforehand (creation onto an existing account)
+	nnames := make([]string, 0, len(ew.NAddrs))
+	for nm := range ew.NAddrs {
+		nnames = append(nnames, nm)
+	}
+	sort.Strings(nnames)
+	for _, nm := range nnames {
+		if fund.Sign() > 0 {
+			if err := n.App.BankKeeper.SendCoins(ctx, w.Acct("a6").Addr, sdk.AccAddress(ew.NAddrs[nm].Bytes()), sdk.NewCoins(coin(fund.String()))); err != nil {
+				panic(err)
+			}
+		}
 	}
 	if sc.Setup.PriorLog {
 		// a transaction of T, delivered first in this block, calls a contract that emits two logs
